@@ -67,6 +67,8 @@ def body_rows(spec, stats):
         RC.check_rows(spec, tab, ph, 1e-6, 1e-6)
     stats.cls("solved")
     stats.cls("phases={}".format(len(phases)))
+    if any(d == 0 for d in spec["phases"].values()):
+        stats.cls("phase_of_zero_duration")
     if nontrivial(spec, tab):
         stats.nontriv(jhash([spec["nodes"], spec["phases"]]), sample=S.summarize(spec))
 
@@ -264,7 +266,8 @@ def _reduce_case(case):
 def streams(tier, avoid):
     big = tier == "thorough"
     mn = 14 if big else 9
-    o = G.Opts(max_nodes=mn, phases=True, avoid=avoid, min_nodes=3, odd_phase_conf=True)
+    o = G.Opts(max_nodes=mn, phases=True, avoid=avoid, min_nodes=3, odd_phase_conf=True,
+               zero_duration=True)
     orail = G.Opts(max_nodes=mn, phases=True, rails=True, avoid=avoid, min_nodes=3)
     meta = st.fixed_dictionaries({
         "spec": G.systems(o),
